@@ -601,7 +601,7 @@ func isLabel(s string) bool {
 		return false
 	}
 	for _, r := range s {
-		if !(unicode.IsLetter(r) || unicode.IsDigit(r) || r == '-' || r == '_' || r == '/' || r == '.' || r == '=' || r == '*' || r == '<' || r == '>' || r == '!' || r == '~' || r == '^') {
+		if !(unicode.IsLetter(r) || unicode.IsDigit(r) || r == '-' || r == '_' || r == '/' || r == '.' || r == '=' || r == '*' || r == '[' || r == ']' || r == '<' || r == '>' || r == '!' || r == '~' || r == '^') {
 			return false
 		}
 	}
